@@ -1,4 +1,5 @@
 import LimnoriaModel.C11.Model
+import LimnoriaModel.C11.Multi
 import LimnoriaModel.C05.Drive
 import LimnoriaModel.Driver.Core
 namespace C11
@@ -45,6 +46,7 @@ def decRecv (f : String) : Option RecvRes :=
 
 structure DState where
   w : World := {}
+  ws : List World := []                   -- several drivers sharing `_select`
   accept : Option (List Str) := none      -- `none`: every time value is accepted
 
 def timeOkOf (s : DState) : Str → Bool :=
@@ -78,6 +80,23 @@ def driveWith (mkEnv : DState → Env) (s : DState) (fs : List String) : DState 
           let p := splitLF b
           (if p.1.isEmpty then "-" else ",".intercalate (p.1.map encBytes)) ++ "|" ++ encBytes p.2
         | none => "bad-op")
+  | ["mreset", n] =>
+    (match n.toNat? with
+     | some n => ({ s with ws := List.replicate n {} }, "ok")
+     | none => (s, "bad-op"))
+  | ["mloop"] =>
+    let ws' := multiLoop (mkEnv s) s.ws
+    ({ s with ws := ws' }, " || ".intercalate ((s.ws.zip ws').map fun (o, n) => dump o n))
+  | "m" :: i :: rest =>
+    (match i.toNat?, decOp rest with
+     | some i, some op =>
+       (match s.ws[i]? with
+        | some w =>
+          let w' := step (mkEnv s) w op
+          let ws' := s.ws.set i w'
+          ({ s with ws := ws' }, " || ".intercalate ((s.ws.zip ws').map fun (o, n) => dump o n))
+        | none => (s, "bad-op"))
+     | _, _ => (s, "bad-op"))
   | _ =>
     match decOp fs with
     | none => (s, "bad-op")
